@@ -246,7 +246,7 @@ def run(tier, seed):
     sb, _ = b3.validate("ArithObs", [c1, good_plus, c2, good_over, c3, good_mod, c4])
     st = {"ok": [b[0] for b in sb] == [0, 2, 4, 6], "reported": [[b[0], b[1].get("why")] for b in sb]}
     cov["obs_selftest"] = st
-    if not st["ok"]:
+    if st["ok"] is False:
         raise vlib.Inconclusive("observation self-test failed: %r" % st)
 
     # ---- evidence -----------------------------------------------------------------------------------------------
